@@ -216,7 +216,7 @@ def rule_G1(ctx):
     f = m.set_lsb0
     for key in sorted(set(l) | set(s)):
         if key not in l or key not in s:
-            miss = 'lsb0_methods' if key not in l else 'msb0_methods'
+            miss = m.switch_names['lsb0'] if key not in l else m.switch_names['msb0']
             r.fail(f.key, f"{key[0]}.{key[1]}", f"slot assigned by one mode table only (missing from {miss}): toggling the "
                    'option back does not restore the other variant', loc=f.loc())
             continue
@@ -248,10 +248,14 @@ def rule_G1(ctx):
             else:
                 r.ok(f"{c}.{x}<->{y}")
     # selection and installation
-    sel = [n for n in own_walk(f.node) if isinstance(n, ast.IfExp) and {ast.unparse(n.body), ast.unparse(n.orelse)} == {'lsb0_methods', 'msb0_methods'}]
+    ln, mn = m.switch_names['lsb0'], m.switch_names['msb0']
+    sel = [n for n in own_walk(f.node) if isinstance(n, ast.IfExp) and {ast.unparse(n.body), ast.unparse(n.orelse)} == {ln, mn}]
     if len(sel) != 1:
         raise AnalysisError('Options.set_lsb0: table selection expression not recognised (needs a human)')
-    if ast.unparse(sel[0].body) != 'lsb0_methods' or '_lsb0' not in ast.unparse(sel[0].test):
+    test, when_true = sel[0].test, ast.unparse(sel[0].body)
+    if isinstance(test, ast.UnaryOp) and isinstance(test.op, ast.Not):
+        test, when_true = test.operand, ast.unparse(sel[0].orelse)
+    if when_true != ln or '_lsb0' not in ast.unparse(test) or 'not ' in ast.unparse(test):
         r.fail(f.key, sel[0], 'the lsb0 table must be selected exactly when the option is true', loc=f.loc(sel[0]))
     else:
         r.ok(sel[0])
